@@ -542,6 +542,16 @@ def run(ctx):
                     break
                 r = one(it)
                 sp = specs[it[1]]
+                if r.get('crash') or (n < len(first) and first[n].get('crash')):
+                    # a crashed Squid is a verdict by itself; transcripts of such executions are not comparable
+                    if r.get('crash'):
+                        out['crashes'].append((spec_name(sp), it[2], '; '.join(r['crash'])[:2000]))
+                    out['done'].append((it[0], it[1]))
+                    out['outcomes']['squid-crashed'] = out['outcomes'].get('squid-crashed', 0) + 1
+                    if len(out['crashes']) >= 5:
+                        out['deadline'] = True
+                        break
+                    continue
                 if n < len(first) and (first[n]['transcript'] != r['transcript']):
                     raise HarnessError('nondeterminism: %s %r gave different transcripts on two instances:\n%r\n%r' % (
                         spec_name(sp), it[2], first[n]['transcript'], r['transcript']))
@@ -551,8 +561,6 @@ def run(ctx):
                 for f in r['facts']:
                     out['facts'][f] = out['facts'].get(f, 0) + 1
                 out['outcomes'][r['outcome']] = out['outcomes'].get(r['outcome'], 0) + 1
-                if r.get('crash'):
-                    out['crashes'].append((spec_name(sp), it[2], '; '.join(r['crash'])[:2000]))
                 if len(out['samples']) < 1 and n % 53 == 7:
                     out['samples'].append({'spec': spec_name(sp), 'choices': it[2], 'transcript': r['transcript']})
                 if r['violation']:
@@ -565,6 +573,10 @@ def run(ctx):
                                 fresh()
                             r2 = one(it)
                             out['replays'] += 1
+                            if r2.get('crash'):
+                                out['crashes'].append((spec_name(sp), it[2], '; '.join(r2['crash'])[:2000]))
+                                confirmed = False
+                                break
                             if not r2['violation'] or r2['violation'][0] != key:
                                 if sp['cls'] in KERNEL_DEPENDENT_CLASSES and key.startswith('lost:'):
                                     # the asym classes rely on how much the kernel keeps in Squid's socket send queue; under heavy
@@ -625,7 +637,9 @@ def run(ctx):
     complete = tot['execs'] == len(items)
     violations = [Violation(k, what, rp) for k, (what, rp) in sorted(vio.items())]
     for name, choices, what in crashes:
-        violations.append(Violation('crash:' + name.split('/')[0], 'squid crashed/asserted during %s %r: %s' % (name, choices, what),
+        mk = re.search(r'AddressSanitizer: ([\w-]+)|(assertion failed: [^\n"]{0,80})|(FATAL: [^\n"]{0,60})', what)
+        kind = (mk.group(1) or mk.group(2) or mk.group(3)) if mk else 'exit'
+        violations.append(Violation('crash:%s:%s' % (name.split('/')[0], kind), 'squid crashed/asserted during %s %r: %s' % (name, choices, what),
                                     {'spec': None, 'name': name, 'choices': choices}))
     if complete and not [v for v in violations if v.key.split(':')[0] != 'lost']:
         need = ['s2c:delivered', 'c2s:delivered', 's2c:delivered-after-sender-close', 'c2s:delivered-after-sender-close']
